@@ -26,7 +26,37 @@ pub fn try_root(net: NetID, fee_mult: u128, with_wallet: bool) -> Result<(World,
 }
 
 fn root_unguarded(net: NetID, fee_mult: u128, with_wallet: bool) -> (World, Node) {
-    let w = world_mel(net, 1_000_000_000, fee_mult);
+    root_variant_unguarded(net, fee_mult, with_wallet, 0)
+}
+
+/// Other genesis configurations (the property statements quantify over them): the initial coin in another denomination or very
+/// large, a non-empty initial fee pool, stakes present from block 0.
+pub fn genesis_world(net: NetID, fee_mult: u128, variant: u8) -> World {
+    use melstructs::StakeDoc;
+    use std::collections::BTreeMap;
+    let stake = |i: u8, e_start: u64, e_post_end: u64, syms: u128| {
+        (melstructs::TxHash(tmelcrypt::hash_single(&[b'g', i])), StakeDoc { pubkey: key(i).0, e_start, e_post_end, syms_staked: melstructs::CoinValue(syms) })
+    };
+    match variant {
+        0 => world_mel(net, 1_000_000_000, fee_mult),
+        1 => world(net, out_t(1_000_000_000, Denom::Sym), 1 << 40, fee_mult, BTreeMap::from([stake(1, 0, 2, 1000)])),
+        2 => world(net, out_t(1_000_000_000, Denom::Erg), 12_345, fee_mult, BTreeMap::from([stake(1, 0, 1, 5), stake(2, 1, 3, 7)])),
+        _ => world(net, out_t(1 << 100, Denom::Mel), 1 << 100, fee_mult, BTreeMap::new()),
+    }
+}
+
+pub fn root_variant(net: NetID, fee_mult: u128, with_wallet: bool, variant: u8) -> (World, Node) {
+    match crate::guard::guard(|| root_variant_unguarded(net, fee_mult, with_wallet, variant)) {
+        Ok(x) => x,
+        Err(p) => {
+            eprintln!("MACHINERY-FAILURE the honest set-up sequence (genesis variant {}, set-up faucet, seal) panicked in the code under test: {} [{}]", variant, p.msg, p.frame);
+            std::process::exit(2);
+        }
+    }
+}
+
+fn root_variant_unguarded(net: NetID, fee_mult: u128, with_wallet: bool, variant: u8) -> (World, Node) {
+    let w = genesis_world(net, fee_mult, variant);
     let mut u = w.genesis.clone();
     let mut block_txs: Vec<Transaction> = vec![];
     let mut universe = vec![CoinID::zero_zero()];
@@ -54,7 +84,8 @@ fn root_unguarded(net: NetID, fee_mult: u128, with_wallet: bool) -> (World, Node
     let s = u.seal(None);
     let model = model_of(&s, &universe, &builtin_pool_keys(), &block_txs);
     let h0 = s.header();
-    let node = Node::new_root(Real::Sealed(s), model, format!("genesis[{:?}]", net), json!({"root": format!("{:?}", net), "fee_multiplier": fee_mult.to_string(), "wallet": with_wallet}), vec![h0]);
+    let label = if variant == 0 { format!("genesis[{:?}]", net) } else { format!("genesis[{:?}, configuration {}]", net, variant) };
+    let node = Node::new_root(Real::Sealed(s), model, label, json!({"root": format!("{:?}", net), "fee_multiplier": fee_mult.to_string(), "wallet": with_wallet, "genesis_variant": variant}), vec![h0]);
     (w, node)
 }
 
@@ -66,14 +97,16 @@ pub struct Scenario {
     pub depth: usize,
     /// actions applied to the root before the search starts (e.g. a jump to a boundary height)
     pub pre: Vec<Action>,
+    /// genesis configuration (0 = the standard one, see `genesis_world`)
+    pub genesis: u8,
 }
 
 pub fn sc(name: &'static str, net: NetID, fee_mult: u128, cfg: AlphaCfg, depth: usize) -> Scenario {
-    Scenario { name, net, fee_mult, cfg, depth, pre: vec![] }
+    Scenario { name, net, fee_mult, cfg, depth, pre: vec![], genesis: 0 }
 }
 
 pub fn run_scenario(run: &Run, sc: &Scenario, max_states: usize) -> SearchStats {
-    let (_w, mut root) = root(sc.net, sc.fee_mult, true);
+    let (_w, mut root) = root_variant(sc.net, sc.fee_mult, true, sc.genesis);
     let eng = Engine::new(run);
     for a in &sc.pre {
         match eng.step(&root, a) {
@@ -94,7 +127,7 @@ pub fn run_scenario(run: &Run, sc: &Scenario, max_states: usize) -> SearchStats 
 }
 
 pub fn sample_alphabet(run: &Run, sc: &Scenario) {
-    let (_w, root) = root(sc.net, sc.fee_mult, true);
+    let (_w, root) = root_variant(sc.net, sc.fee_mult, true, sc.genesis);
     let scratch = Run::new("scratch", "quick");
     let eng = Engine::new(&scratch);
     if let StepOut::Next(open) = eng.step(&root, &Action::Open) {
@@ -102,6 +135,17 @@ pub fn sample_alphabet(run: &Run, sc: &Scenario) {
         run.set(&format!("alphabet_at_first_open_state:{}", sc.name), json!({"size": labels.len(), "labels": labels}));
     }
     let _ = PoolKey::new(Denom::Mel, Denom::Sym);
+}
+
+/// The same alphabet and depth over the other genesis configurations.
+pub fn genesis_scenarios(names: [&'static str; 3], net: NetID, cfg: &AlphaCfg, depth: usize) -> Vec<Scenario> {
+    (1u8..=3)
+        .map(|g| {
+            let mut s = sc(names[g as usize - 1], net, if g == 2 { 1000 } else { 0 }, cfg.clone(), depth);
+            s.genesis = g;
+            s
+        })
+        .collect()
 }
 
 /// A sealed node reached honestly in which an earlier DoscMint raised the recorded DOSC speed above its genesis value
